@@ -517,7 +517,7 @@ func init() {
 		// the real-socket eighth of the cases enters the poller, whose packed epoll_event is misaligned by design:
 		// plain build (the in-memory cases were also run under checkptr while this check was developed)
 		Builds:   func(string) []string { return []string{"plain"} },
-		NumCases: func(tier, build string) int { return vf.Tiered(tier, 1500, 300000) },
+		NumCases: func(tier, build string) int { return vf.Tiered(tier, 4000, 300000) },
 		Floor:    func(tier string) int { return vf.Tiered(tier, 50, 200) },
 		Run:      runC19,
 	})
